@@ -1669,6 +1669,17 @@ class WriteTool(BaseTool):
         if normalize_mode:
             result["mode"] = "normalize"
 
+        # The file is written (and hashed) as UTF-8: text that cannot be encoded, e.g. a lone
+        # surrogate from a JSON "\ud800" escape, is an error envelope, not an exception.
+        try:
+            canonical_content.encode("utf-8")
+        except UnicodeEncodeError as e:
+            return self._error_envelope(
+                target_path,
+                [{"code": "E_WRITE", "message": f"Content cannot be encoded as UTF-8: {e}"}],
+                corrections,
+            )
+
         # Diff-first output + hashes (works for dry-run)
         result["diff_unified"] = self._build_unified_diff(baseline_content_for_diff, canonical_content)
         result["canonical_hash"] = self._compute_hash(canonical_content)
